@@ -4,6 +4,7 @@ import (
 	crand "crypto/rand"
 	"fmt"
 	"io"
+	"math"
 	"strings"
 
 	"github.com/islishude/bip39"
@@ -148,6 +149,16 @@ func (c *Ctx) c09Words() {
 		counts = append(counts, n, -n, n*4, n+1)
 	}
 	counts = append(counts, extremeInts...)
+	// values that alias a legal count after a narrowing conversion or an intermediate overflow
+	// (n*4, n+n/3 …): ±2^k + {12,15,18,21,24}, and the same offsets from the int extremes
+	for _, k := range []uint{7, 8, 15, 16, 31, 32, 33, 48, 60, 61, 62} {
+		for _, d := range []int64{12, 15, 18, 21, 24} {
+			counts = append(counts, int64(1)<<k+d, -(int64(1)<<k)+d, int64(1)<<k-d)
+		}
+	}
+	for _, d := range []int64{12, 15, 18, 21, 24} {
+		counts = append(counts, math.MinInt64+d, math.MaxInt64-d, math.MaxInt64-d+1)
+	}
 	for _, n := range counts {
 		for _, li := range []int{2, 5} {
 			impl := c.newm("word-count-sweep", n, int64(langVals[li]), "")
